@@ -31,6 +31,17 @@ def res():
     return r
 
 
+class QueryFailed(Exception):
+    pass
+
+
+def query(mm):
+    try:
+        list(mm.all_resources()); list(mm.window_patterns()); list(mm.resources()); list(mm.windows())
+    except Exception as e:
+        raise QueryFailed(f"{type(e).__name__}: {e}")
+
+
 def build(spec, counter, expected, prefix_fn):
     """Builds the real map for ``spec``; appends (resource, local start, local end) through
     ``prefix_fn`` which maps a local record of THIS map to the root's view."""
@@ -43,7 +54,7 @@ def build(spec, counter, expected, prefix_fn):
             name = (f"r{counter[0]}",)
             counter[0] += 1
             s, e = mm.add_resource(r, name=name, size=size, addr=addr)
-            list(mm.all_resources())
+            query(mm)
             expected.append(prefix_fn(dict(resource=r, start=s, end=e, width=spec["dw"], path=(name,))))
         else:
             _, child_spec, kind, name, addr = item
@@ -51,7 +62,7 @@ def build(spec, counter, expected, prefix_fn):
             child = build(child_spec, counter, sub_expected, lambda rec: rec)
             sparse = {"same": None, "sparse": True, "dense": False}[kind]
             b, stop, ratio = mm.add_window(child, name=name, addr=addr, sparse=sparse)
-            list(mm.all_resources()); list(mm.window_patterns())      # queries between the mutations
+            query(mm)                                                  # queries between the mutations
             for rec in sub_expected:
                 # the sentence of the property: [b + s/r, b + e/r), width x r, window name prefixed
                 assert rec["start"] % ratio == 0 and rec["end"] % ratio == 0
@@ -70,6 +81,9 @@ def check_tree(spec, tier, seed):
     expected = []
     try:
         root = build(spec, [0], expected, lambda rec: rec)
+    except QueryFailed as e:
+        return dict(violation=dict(kind="tree", err=dict(msg=f"a query between two additions failed: {e}"),
+                                   signature=dict(kind="oracle", what="internal_error")), evaluations=0)
     except ValueError as e:
         return dict(refused=True, msg=str(e)[:100])
     except Exception as e:
@@ -144,7 +158,7 @@ def configs(tier):
     quick = tier == "quick"
     out = []
     names = [None, "w", ("w", 0)]
-    for root_dw in (8, 32) if quick else (8, 16, 32, 64):
+    for root_dw in (8, 32, 64) if quick else (8, 16, 32, 64):
         for root_aw in (5, 6) if quick else (4, 5, 6):
             lead = [[], [("res", 1, None)], [("res", 3, None)]]
             # ---- level-2 windows directly under the root ----------------------------------------------
@@ -156,7 +170,7 @@ def configs(tier):
                     if ratio in (2, 4, 8):
                         kinds.append(("dense", sd, ratio.bit_length() - 1))
             for (kind, cdw, cal), nm, ld in itertools.product(kinds, names, lead):
-                for caw in (2, 3) if quick else (1, 2, 3):
+                for caw in ((2, 3) if quick else (1, 2, 3)) + ((4,) if (kind == "dense" and root_dw // cdw == 8) else ()):
                     for leaf in leafs(cdw, caw, cal):
                         for root_al in (0,) if quick else (0, 1, 2):
                             items = list(ld) + [("win", leaf, kind, nm, None), ("res", 1, None)]
